@@ -279,6 +279,7 @@ class C09(Spec):
             return []
         mout = self.model_out(c, ml)
         plan = S.Plan(c['tree'])
+        plan.hint = max(sum(h) for h in self.histories(c))
         tol = S.FIR_TOL if S.is_fir(c['tree']) else 0.0
         out, j = [], 0
         for h, rec in zip(self.histories(c), res):
